@@ -29,9 +29,15 @@ import (
 	"nriverif/lib/rep"
 )
 
-const (
-	verifRoot = "/verif"
-	mcRoot    = "/verif/mc"
+// verifRoot is /verif unless VERIF_ROOT is set (background runs from a snapshot of the tree).
+var (
+	verifRoot = func() string {
+		if r := os.Getenv("VERIF_ROOT"); r != "" {
+			return r
+		}
+		return "/verif"
+	}()
+	mcRoot = filepath.Join(verifRoot, "mc")
 )
 
 func repoRoot() string {
